@@ -59,14 +59,14 @@ def tree_fingerprint(extra=""):
     return h.hexdigest()[:16]
 
 
-def write_config(incdir):
+def write_config(incdir, with_gmp=True):
     os.makedirs(os.path.join(incdir, "cmr"), exist_ok=True)
     txt = open(os.path.join(REPO, "CMakeLists.txt")).read()
     ver = re.search(r"project\(\s*CMR\s+VERSION\s+(\d+)\.(\d+)\.(\d+)", txt)
     v = ver.groups() if ver else ("1", "3", "0")
     with open(os.path.join(incdir, "cmr", "config.h"), "w") as f:
         f.write('#define CMR_CMAKE_BUILD_TYPE "Verif"\n#define CMR_VERSION_MAJOR %s\n'
-                '#define CMR_VERSION_MINOR %s\n#define CMR_VERSION_PATCH %s\n#define CMR_WITH_GMP\n' % v)
+                '#define CMR_VERSION_MINOR %s\n#define CMR_VERSION_PATCH %s\n%s' % (v + ("#define CMR_WITH_GMP\n" if with_gmp else "",)))
     with open(os.path.join(incdir, "cmr", "export.h"), "w") as f:
         f.write("#ifndef CMR_EXPORT_H\n#define CMR_EXPORT_H\n#define CMR_EXPORT\n#define CMR_NO_EXPORT\n"
                 "#define CMR_DEPRECATED\n#endif\n")
@@ -77,13 +77,14 @@ def build_lib(cfg="rel", extra_defs=(), tag=None):
     name = "lib-" + cfg + ("-" + tag if tag else "")
     out = os.path.join(WORK, name)
     flags = CFGS[cfg] + [GUARD] + list(extra_defs)
-    fp = tree_fingerprint(" ".join(flags) + " buildrules-v2")
+    fp = tree_fingerprint(" ".join(flags) + " buildrules-v3")
     stamp = os.path.join(out, "stamp")
     if os.path.exists(stamp) and open(stamp).read() == fp and os.path.exists(os.path.join(out, "libcmr.a")):
         return out
     shutil.rmtree(out, ignore_errors=True)
     os.makedirs(out)
-    write_config(os.path.join(out, "inc"))
+    # libgmp is not MSan-instrumented (every mpz value would look uninitialised): the msan build is configured without GMP
+    write_config(os.path.join(out, "inc"), with_gmp=(cfg != "msan"))
     srcs = lib_sources()
     inc = ["-I" + os.path.join(REPO, "include"), "-I" + os.path.join(out, "inc"),
            "-I" + os.path.join(REPO, "src/cmr")]
